@@ -122,7 +122,14 @@ class SymBuild:
 
 
 class SymGen:
-    def __init__(self, seed: int, n_nodes: int = 8, nparams: int | None = None):
+    # families of the C16 quantifier: elementwise with broadcasting, transpose, roll,
+    # stack, einsum, reductions over static axes, full/zeros
+    C16_FAMILIES = {"binop", "where", "math", "transpose", "roll", "stack", "einsum", "reduce",
+                    "create", "cmp"}
+
+    def __init__(self, seed: int, n_nodes: int = 8, nparams: int | None = None,
+                 families: set[str] | None = None):
+        self.families = families
         self.rng = random.Random(seed)
         self.params = ["n", "m", "k"][: (nparams or self.rng.choice([1, 1, 2, 2, 3]))]
         self.spec: dict[str, Any] = {"inputs": [], "nodes": [], "outputs": {},
@@ -190,6 +197,8 @@ class SymGen:
             ["binop", "where", "math", "transpose", "roll", "stack", "concat", "einsum",
              "reduce", "create", "slice", "pad", "bcast", "cmp"],
             [5, 1.5, 1.5, 2, 2, 1.5, 1.5, 2, 2.5, 1, 2, 1, 1.5, 1])[0]
+        if self.families is not None and fam not in self.families:
+            return
         x = self.pick()
         if x is None:
             return
@@ -307,7 +316,7 @@ class SymGen:
                      [lens[c] for c in out], self.rdt(x, y))
         elif fam == "reduce":
             stat = [i for i, a in enumerate(xs) if is_static(a) and a.get("", 0) > 0]
-            if not stat:
+            if not stat or np.dtype(self.dtype[x]).kind not in "if":
                 return
             ax = sorted(self.rng.sample(stat, self.rng.randrange(1, len(stat) + 1)))
             op = self.rng.choice(["sum", "sum", "amax", "prod"])
@@ -408,7 +417,8 @@ class SymGen:
         return True
 
 
-def generate(seed: int, n_nodes: int | None = None, nparams: int | None = None
-             ) -> dict[str, Any]:
+def generate(seed: int, n_nodes: int | None = None, nparams: int | None = None,
+             c16_only: bool = False) -> dict[str, Any]:
     rng = random.Random(seed ^ 0xABC)
-    return SymGen(seed, n_nodes or rng.choice([3, 4, 6, 8, 10]), nparams).generate()
+    return SymGen(seed, n_nodes or rng.choice([3, 4, 6, 8, 10]), nparams,
+                  SymGen.C16_FAMILIES if c16_only else None).generate()
